@@ -1,5 +1,6 @@
-(* Model of src/cascade/executor/runner/runner.py `run` (as of worktree commit bd210aa: the
-   results are pulled with next() per declared output instead of zip), of Memory.handle /
+(* Model of src/cascade/executor/runner/runner.py `run` (as of commits bd210aa: the
+   results are pulled with next() per declared output instead of zip, and 62ec2b5: a generator
+   is iterated also when a single output is declared), of Memory.handle /
    Memory.provide as far as `run` uses them (src/cascade/executor/runner/memory.py),
    of is_last_output_of (src/cascade/controller/notify.py) and of the parts of
    fluent.Node.__init__ that name outputs and place input placeholders
@@ -19,8 +20,13 @@ Notation pval := (pval D).
 Notation task := (@task F D).
 
 (* what iterating the returned object does: not iterable, or yields ys and then stops
-   (fin = None) or raises (fin = Some exception) *)
-Inductive iterab := NotIter | Iter (ys : list pval) (fin : option string).
+   (fin = None) or raises (fin = Some exception); gen = it is a generator object
+   (inspect.isgenerator), as opposed to a tuple / list / other iterable *)
+Inductive iterab := NotIter | Iter (gen : bool) (ys : list pval) (fin : option string).
+
+(* singleValue = outputsN == 1 and not inspect.isgenerator(result), negated *)
+Definition unpacks (n : nat) (it : iterab) : bool :=
+  match it with Iter true _ _ => true | _ => Nat.ltb 1 n end.
 (* the call func(args, kwargs): raises, or returns the object v *)
 Inductive cres := CRaise (e : string) | CRet (v : pval) (it : iterab).
 
@@ -101,16 +107,16 @@ Definition run_task (tid : string) (t : task) (src : list (inkey * dsid)) (publi
   | Ok (args, kwargs) =>
       match sort_by_key (t_oschema t) with
       | [] => ([], Err "ValueError")               (* no output key for task *)
-      | [(k, _)] =>
+      | (k, s) :: r =>
           match call (t_func t) args kwargs with
           | CRaise e => ([], Err e)
-          | CRet v _ => ([((tid, k), v, in_publish (tid, k) publish)], Ok tt)
-          end
-      | outs =>
-          match call (t_func t) args kwargs with
-          | CRaise e => ([], Err e)
-          | CRet _ NotIter => ([], Err "TypeError")  (* iter(result) *)
-          | CRet _ (Iter ys fin) => store_loop tid publish outs ys fin []
+          | CRet v it =>
+              if unpacks (List.length ((k, s) :: r)) it then
+                match it with
+                | NotIter => ([], Err "TypeError")  (* iter(result) *)
+                | Iter _ ys fin => store_loop tid publish ((k, s) :: r) ys fin []
+                end
+              else ([((tid, k), v, in_publish (tid, k) publish)], Ok tt)
           end
       end
   end.
@@ -137,7 +143,7 @@ Definition is_last_output_of (d : dsid) (tasks : list (string * task)) : res boo
 
 End Runner.
 
-Arguments NotIter {D}. Arguments Iter {D}. Arguments CRaise {D}. Arguments CRet {D}.
+Arguments NotIter {D}. Arguments unpacks {D}. Arguments Iter {D}. Arguments CRaise {D}. Arguments CRet {D}.
 Arguments ensure {D}. Arguments set_nth {D}. Arguments put {D}. Arguments static_args {F D}.
 Arguments provide {D}. Arguments bind_inputs {D}. Arguments bound_args {F D}.
 Arguments store_loop {D}. Arguments run_task {F D}. Arguments mset {D}. Arguments memory_after {D}.
